@@ -251,8 +251,12 @@ class BlePduReceived(PbMessageWrapper):
     def from_packet(packet):
         """Convert packet into BlePduReceived message
         """
+        # Only the data channel PDU is carried by this message
+        if BTLE_DATA not in packet:
+            return None
+
         return BlePduReceived(
-            pdu=bytes(packet),
+            pdu=raw(packet[BTLE_DATA:]),
             direction=packet.metadata.direction,
             conn_handle=packet.metadata.connection_handle,
             processed=packet.metadata.processed,
